@@ -522,13 +522,13 @@ func judge(r *vh.Run, p plan, frames []frameObs, sentRecs map[tp][]*sent, topicB
 	sort.Slice(frames, func(i, j int) bool { return frames[i].Seq < frames[j].Seq })
 	// expected per partition: successfully promised records in produce order
 	type cursor struct {
-		exp     []*sent
+		exp     []*sent // every record produced to the partition, in produce order (failed ones included)
 		at      int
 		nextSeq int32
 		pid     int64
 		epoch   int16
 		started bool
-		lastN   int
+		last    []*sent // the records of the previous batch written for the partition
 	}
 	cur := map[tp]*cursor{}
 	failed := 0
@@ -545,11 +545,10 @@ func judge(r *vh.Run, p plan, frames []frameObs, sentRecs map[tp][]*sent, topicB
 				r.Inconclusive(fmt.Sprintf("case %d: a record promise did not fire (%s v%d %s acks %d)", p.Idx, p.Backend, p.Version, p.Mode, p.Acks))
 				return
 			}
-			if s.Err == nil {
-				c.exp = append(c.exp, s)
-			} else {
+			if s.Err != nil {
 				failed++
 			}
+			c.exp = append(c.exp, s)
 		}
 		cur[k] = c
 	}
@@ -693,24 +692,32 @@ func judge(r *vh.Run, p plan, frames []frameObs, sentRecs map[tp][]*sent, topicB
 						fail("batch attribute bits inconsistent with the producer configuration", d)
 					}
 				}
-				// the records must be the next n expected ones of this partition
-				if c.at+n > len(c.exp) {
-					// a re-sent batch (retry) repeats the previous one
-					if c.lastN == n && c.at >= n && sameRecords(recs, c.exp[c.at-n:c.at], f.Version, hd) == "" {
-						r.Count("resent_batches", 1)
-						continue
+				// the batch must hold the next records produced to this partition, in order. Records whose promise
+				// failed (too large to buffer; or written but failed later, e.g. at Close) may be absent or present;
+				// successfully promised ones may not be skipped.
+				var exp []*sent
+				j, why := c.at, ""
+				for i := range recs {
+					for j < len(c.exp) && c.exp[j].Err != nil && sameRecords(recs[i:i+1], c.exp[j:j+1], f.Version, hd) != "" {
+						j++ // a failed record that was never written
 					}
-					d["expected_remaining"] = len(c.exp) - c.at
-					fail("batch holds more records than the application still has outstanding for the partition", d)
-					continue
+					if j >= len(c.exp) {
+						why = fmt.Sprintf("record %d: nothing left outstanding for the partition", i)
+						break
+					}
+					if w := sameRecords(recs[i:i+1], c.exp[j:j+1], f.Version, hd); w != "" {
+						why = fmt.Sprintf("record %d vs produced %s: %s", i, c.exp[j].ID, w)
+						break
+					}
+					exp = append(exp, c.exp[j])
+					j++
 				}
-				exp := c.exp[c.at : c.at+n]
-				if why := sameRecords(recs, exp, f.Version, hd); why != "" {
-					if c.lastN == n && c.at >= n && sameRecords(recs, c.exp[c.at-n:c.at], f.Version, hd) == "" {
-						r.Count("resent_batches", 1)
+				if why != "" {
+					if len(c.last) == n && sameRecords(recs, c.last, f.Version, hd) == "" {
+						r.Count("resent_batches", 1) // a retry repeats the previous batch
 						continue
 					}
-					d["mismatch"], d["first_expected_id"] = why, exp[0].ID
+					d["mismatch"] = why
 					fail("batch records differ from the records produced to the partition, in order", d)
 					continue
 				}
@@ -750,7 +757,7 @@ func judge(r *vh.Run, p plan, frames []frameObs, sentRecs map[tp][]*sent, topicB
 						}
 					default:
 						for _, e := range exp {
-							if e.PID != hd.ProducerID || e.Epoch != hd.ProducerEpoch {
+							if e.Err == nil && (e.PID != hd.ProducerID || e.Epoch != hd.ProducerEpoch) {
 								d["pid"], d["epoch"], d["promised_pid"], d["promised_epoch"] = hd.ProducerID, hd.ProducerEpoch, e.PID, e.Epoch
 								fail("batch producer id/epoch differ from what the promises report", d)
 								break
@@ -768,8 +775,8 @@ func judge(r *vh.Run, p plan, frames []frameObs, sentRecs map[tp][]*sent, topicB
 						c.nextSeq = int32((int64(hd.BaseSequence) + int64(n)) & 0x7fffffff)
 					}
 				}
-				c.at += n
-				c.lastN = n
+				c.at = j
+				c.last = exp
 			}
 		}
 		if float64(f.FrameLen) >= 0.95*float64(p.MaxWrite) {
@@ -794,8 +801,14 @@ func judge(r *vh.Run, p plan, frames []frameObs, sentRecs map[tp][]*sent, topicB
 	}
 	// everything promised as produced must have been on the wire
 	for k, c := range cur {
-		if c.at != len(c.exp) {
-			fail("records acknowledged to the application never appeared on the wire", map[string]any{"topic": k.T, "partition": k.P, "on_wire": c.at, "acknowledged": len(c.exp)})
+		missing := 0
+		for _, e := range c.exp[c.at:] {
+			if e.Err == nil {
+				missing++
+			}
+		}
+		if missing > 0 {
+			fail("records acknowledged to the application never appeared on the wire", map[string]any{"topic": k.T, "partition": k.P, "acknowledged_but_unseen": missing})
 			break
 		}
 	}
@@ -841,7 +854,7 @@ func TestCheck(t *testing.T) {
 	if workers > 12 {
 		workers = 12
 	}
-	perCombo := r.Pick(4, 30)
+	perCombo := r.Pick(4, 100)
 	type job struct {
 		backend string
 		v       int16
@@ -856,13 +869,13 @@ func TestCheck(t *testing.T) {
 			}
 		}
 	}
-	nPacked := r.Pick(4, 40)
+	nPacked := r.Pick(4, 120)
 	for v := int16(0); v <= 13; v++ {
 		for k := 0; k < nPacked; k++ {
 			jobs = append(jobs, job{"packed", v, (int(v) + k) % 2 * (1 + (int(v)+k)%4), k})
 		}
 	}
-	nKfake := r.Pick(33, 660)
+	nKfake := r.Pick(33, 1500)
 	for i := 0; i < nKfake; i++ {
 		jobs = append(jobs, job{"kfake", int16(3 + i%11), i % 5, i})
 	}
